@@ -79,6 +79,7 @@ type caseJ struct {
 	Obs      []viewJ    `json:"obs"`
 	FacAfter viewJ      `json:"fac_after"`
 	Panic    string     `json:"panic,omitempty"`
+	Changed  []int      `json:"changed_after_later_derivations,omitempty"`
 }
 
 type callArgs struct {
@@ -187,31 +188,64 @@ func argsOf(s *stepDesc) *callArgs {
 }
 
 // runChain executes the steps from the factory; step k is issued from sites[4*k+flavour].
+// The history is a tree, not only a chain: after the chain, further errors are derived from
+// EVERY intermediate value and from the factory (siblings of the chain's own successors), and
+// only then are the intermediate values observed (obs[k] = accessor values of the k-th value after
+// all later derivations); Reprobe lists the values whose accessors changed since they were made.
 func runChain(f gerror.Factory, steps []stepDesc) (obs []viewJ, pan string) {
+	obs, _, pan = runChainReprobe(f, steps)
+	return obs, pan
+}
+
+func runChainReprobe(f gerror.Factory, steps []stepDesc) (obs []viewJ, changed []int, pan string) {
 	defer func() {
 		if r := recover(); r != nil {
 			pan = fmt.Sprint(r)
 		}
 	}()
 	cur := f
+	var vals []gerror.Error
+	var first []viewJ
 	for k := range steps {
 		s := &steps[k]
 		a := argsOf(s)
 		s.Rendered = fmt.Sprintf(s.Format, a.Elems...)
 		s.Orig = fmt.Sprintf("originalError: %+v", a.Err)
 		e := sites[siteID(k, s)].fn(cur, methodIndex(s.M), a)
-		obs = append(obs, viewOf(e))
+		vals = append(vals, e)
+		first = append(first, viewOf(e))
+		obs = append(obs, first[k]) // replaced below; kept when a later step panics
 		cur = e.(gerror.Factory)
 		if s.FactoryOf {
 			if g, ok := e.(*gerror.GError); ok {
 				cur = gerror.FactoryOf(g)
-				if v := viewOf(cur.(gerror.Error)); v != obs[len(obs)-1] {
-					panic("FactoryOf changed the accessor values")
-				}
 			}
 		}
 	}
-	return obs, ""
+	// siblings: derive again from every earlier value, newest first and oldest first
+	sib := func(p gerror.Factory, tag string) {
+		p.DTag("sib-" + tag)
+		p.Msg("  sibling %s ", tag)
+		p.Stack()
+		p.SrcDTagMsgS("sib:src", tag, "s")
+		p.Convert(errors.New("sib " + tag)).(gerror.Factory).Convert(errors.New("sib2 " + tag))
+		p.ConvertS(&ptrErr{"sib3 " + tag})
+		p.Base()
+	}
+	for k := len(vals) - 1; k >= 0; k-- {
+		sib(vals[k].(gerror.Factory), "down"+strconv.Itoa(k))
+	}
+	sib(f, "factory")
+	for k := range vals {
+		sib(vals[k].(gerror.Factory), "up"+strconv.Itoa(k))
+	}
+	for k, e := range vals {
+		obs[k] = viewOf(e)
+		if obs[k] != first[k] {
+			changed = append(changed, k)
+		}
+	}
+	return obs, changed, ""
 }
 
 // ---------------------------------------------------------------- Gallina rendering
@@ -257,7 +291,7 @@ func gstep(k int, s stepDesc) string {
 
 func emit(out *gal.Out, kind string, fd facDesc, steps []stepDesc) caseJ {
 	f := mkFactory(fd)
-	obs, pan := runChain(f, steps)
+	obs, changed, pan := runChainReprobe(f, steps)
 	after := viewOf(f.(gerror.Error))
 	gs := make([]string, len(steps))
 	fr := make([]string, len(steps))
@@ -268,7 +302,7 @@ func emit(out *gal.Out, kind string, fd facDesc, steps []stepDesc) caseJ {
 	g := "({| k_name := " + gstr(fd.Name) + "; k_msg := " + gstr(fd.Msg) + "; k_src := " + gstr(fd.Src) +
 		"; k_isfac := " + gal.Bool(fd.IsFac) + "; k_steps := " + gal.List(gs) + "; k_frames := " + gal.List(fr) +
 		"; k_obs := " + gal.ListOf(obs, gview) + "; k_fac_after := " + gview(after) + " |})%N"
-	c := caseJ{kind, fd, steps, obs, after, pan}
+	c := caseJ{kind, fd, steps, obs, after, pan, changed}
 	out.Case(g, asciiJSON(c))
 	return c
 }
